@@ -2,7 +2,7 @@
 # usage: eval_seed.sh <worktree> [name]
 # Confirms a seeded change (tests unchanged, demo fails with / passes without the change) and
 # runs all 20 checks against the worktree (PMV_REPO) - nothing is written to /repo.
-WT="$1"; NAME="${2:-$(basename $WT)}"
+WT="$1"; NAME="${2:-$(basename $WT)}"; mkdir -p /tmp/seed
 cd "$WT" || exit 2
 git diff -- pymeeus > /tmp/seed/$NAME.patch
 echo "== patch: $(grep -c '^[+-][^+-]' /tmp/seed/$NAME.patch) changed lines in $(git diff --stat -- pymeeus | tail -1)"
